@@ -55,10 +55,12 @@ Lemma key_tables_checked :
 Proof. vm_compute. repeat split; reflexivity. Qed.
 
 (* the premise of C18_overwrite_complete, read off the source: every open() of pydoctor that creates or modifies a
-   file uses a truncating mode ('w' / 'wb'), and the compat symlink is unlinked (if present) then created again *)
+   file uses a truncating mode ('w' / 'wb'), the compat symlink is unlinked (if present) then created again, and
+   _writeDocsFor removes a symbolic link found at a page's name before it opens the page (WritePage) *)
 Lemma write_discipline_checked :
-  forallb (fun p => truncating (snd p)) write_modes = true /\ relink_is_unlink_then_symlink = true.
-Proof. vm_compute. split; reflexivity. Qed.
+  forallb (fun p => truncating (snd p)) write_modes = true /\ relink_is_unlink_then_symlink = true /\
+  page_write_unlinks_symlink = true.
+Proof. vm_compute. repeat split; reflexivity. Qed.
 
 Theorem C18_order_sources_free :
   forall s, In s sources ->
@@ -257,7 +259,7 @@ Proof. exists 2%nat. vm_compute. discriminate. Qed.
 Theorem C18_overwrite_complete : forall ops prev,
   (forall n, In n (write_names ops) -> ~ In n (relink_names ops)) ->
   (forall n e, lookup n prev = Some e -> In n (map op_name ops)) ->
-  (forall n t, lookup n prev = Some (Symlink t) -> In n (relink_names ops)) ->
+  (forall n t, lookup n prev = Some (Symlink t) -> ~ In n (write_names ops)) ->
   same_dir (apply_ops ops prev) (apply_ops ops []).
 Proof. exact overwrite_complete. Qed.
 
@@ -266,12 +268,12 @@ Theorem C18_rerun_same_output : forall ops,
   same_dir (apply_ops ops (apply_ops ops [])) (apply_ops ops []).
 Proof. exact rerun_same_output. Qed.
 
-(* operations on pairwise distinct names commute: the order in which the (unsorted) template listing hands the static
+(* operations on pairwise distinct names commute: the order in which the template listing hands the static
    files to prepOutputDirectory does not matter *)
 Theorem C18_static_writes_commute : forall ops1 ops2 d,
   Permutation ops1 ops2 -> NoDup (map op_name ops1) ->
   (forall n, In n (write_names ops1) -> ~ In n (relink_names ops1)) ->
-  (forall n t, lookup n d = Some (Symlink t) -> In n (relink_names ops1)) ->
+  (forall n t, lookup n d = Some (Symlink t) -> ~ In n (write_names ops1)) ->
   same_dir (apply_ops ops1 d) (apply_ops ops2 d).
 Proof. exact writes_commute. Qed.
 
@@ -305,21 +307,33 @@ Theorem C18_template_listing_old_partial :
     forall k, tl_lookup k (load_dir_old lower pi1 files base) = tl_lookup k (load_dir_old lower pi2 files base).
 Proof. exact load_dir_old_order_free. Qed.
 
-(* the hypotheses are needed: a stale file survives; a symlink left where a page is now written is written THROUGH *)
+(* a stale file survives: pydoctor never cleans the output directory (prev must lie inside what the run writes) *)
 Theorem C18_overwrite_stale_prev_refuted :
   exists ops prev, ~ same_dir (apply_ops ops prev) (apply_ops ops []).
 Proof.
   exists [Write [97%N] 1%N], [([98%N], Bytes 7%N)]. intros H. specialize (H [98%N]). vm_compute in H. discriminate.
 Qed.
 
-Theorem C18_overwrite_symlink_prev_refuted :
+(* since 5e9fb91 a PAGE is not written through a symbolic link an earlier run left at its name (a single-root run
+   leaves <root>.html -> index.html; a later run with several roots writes the page <root>.html) *)
+Theorem C18_page_not_written_through_symlink :
+  forall n c t rest, same_dir (apply_ops [WritePage n c] ((n, Symlink t) :: rest)) (apply_ops [WritePage n c] rest).
+Proof.
+  intros n c t rest k. cbn [apply_ops fold_left step]. unfold set_entry. cbn [lookup del].
+  rewrite text_eqb_refl. reflexivity.
+Qed.
+
+(* ... before that commit the page was opened like every other file: written THROUGH the leftover link *)
+Theorem C18_overwrite_symlink_prev_old_refuted :
   exists ops prev,
     (forall n e, lookup n prev = Some e -> In n (map op_name ops)) /\
-    ~ same_dir (apply_ops ops prev) (apply_ops ops []).
+    same_dir (apply_ops ops prev) (apply_ops ops []) /\
+    ~ same_dir (apply_ops (old_pages ops) prev) (apply_ops (old_pages ops) []).
 Proof.
-  exists [Write [97%N] 1%N], [([97%N], Symlink [98%N])]. split.
+  exists [WritePage [97%N] 1%N], [([97%N], Symlink [98%N])]. split; [|split].
   - intros n e Hl. cbn [lookup] in Hl. destruct (text_eqb [97%N] n) eqn:E; [|discriminate].
     apply text_eqb_eq in E. subst n. left. reflexivity.
+  - apply C18_page_not_written_through_symlink.
   - intros H. specialize (H [97%N]). vm_compute in H. discriminate.
 Qed.
 
